@@ -1,4 +1,4 @@
-\* behaviour generation by simulation: tree N2 (three branches), 3 own blocks
+\* behaviour generation by simulation: tree N2 (three branches), 7 submittable txs, 3 own blocks; depth 17 = every action once, in random order
 SPECIFICATION Spec
 CONSTANTS
   Blocks <- N2Blocks
@@ -11,7 +11,7 @@ CONSTANTS
   Accounts <- AB
   ValidChoices <- N2Valid
   Submittable <- N2Sub
-  MaxSub = 2
+  MaxSub = 1
   PNames <- P3
   Observing = TRUE
 VIEW view
